@@ -291,6 +291,8 @@ func (u *Unit) assignTo(lhs ast.Expr, v Val, st *State) {
 			if !u.noSafety {
 				u.oblige(st, u.site(l, "nilmap"), "nilmap", not(eq(m.T, "0")), []string{"C13"}, nil, "store into nil map: "+exprString(l), l)
 			}
+			// execution continues only when the store did not panic
+			st.assume(not(eq(m.T, "0")))
 			u.mapStore(st, m, k, v, t)
 		case *types.Slice, *types.Array:
 			a := u.evalExpr(l.X, st)
